@@ -12,6 +12,8 @@ case kind "hist": {"kind": "hist", "runs": [run, ...]}
          "sync": bool,                       wait until the links of the submitted jobs exist before going on
          "sig": bool}                        die by SIGKILL instead of os._exit
 case kind "excl": {"kind": "excl", "pre": [run..], "p1": [x..], "leave": "ok"|"exc"|"kill", "p2": [x..], "wait": s}
+case kind "excl3": {"kind": "excl3", "pre": [run..], "a": [x..], "b": [x..], "c": [x..], "leave": "ok"|"exc",
+                    "third": "new"|"relaunch", "mk": [x..], "wait": s}   lock hand-over A -> B while C contends
 
 Observables are canonical: a link is [x_name, x_target] where x is the job number (-1: unknown
 name, -2: target outside the workspace job folder), lists are sorted.
@@ -409,6 +411,145 @@ def do_excl(ws, table, rel2x, case):
     return out
 
 
+# ---------------------------------------------------------------- three-process probe (lock hand-over)
+def child_actor(ws, table, logfd, cmdfd):
+    """A process that runs experiment blocks on command (JSON lines on cmdfd):
+    {"op": "run", "tag": T, "jobs": [..]} enters, submits, waits for the links, logs "T holding",
+    then waits for {"op": "leave", "how": "ok"|"exc"}; {"op": "quit"} ends the process."""
+    quiet()
+    cmds = os.fdopen(cmdfd, "r")
+
+    def log(msg):
+        os.write(logfd, (msg + "\n").encode())
+
+    try:
+        while True:
+            line = cmds.readline()
+            if not line:
+                break
+            cmd = json.loads(line)
+            if cmd["op"] == "quit":
+                break
+            tag = cmd["tag"]
+            try:
+                log(f"{tag} try")
+                with experiment(ws, NAME, port=-1):
+                    log(f"{tag} entered")
+                    subs = []
+                    for x in cmd["jobs"]:
+                        IndexedJob(x=x).submit()
+                        subs.append(x)
+                        log(f"{tag} sub {x}")
+                    log(f"{tag} synced" if wait_links(ws, table, subs) else f"{tag} sync-timeout")
+                    log(f"{tag} holding")
+                    how = json.loads(cmds.readline() or '{"how": "exc"}')["how"]
+                    if how == "exc":
+                        log(f"{tag} raise")
+                        raise Boom()
+                    log(f"{tag} endblock")
+                log(f"{tag} exited")
+            except Boom:
+                log(f"{tag} exc-out")
+            except BaseException as e:  # noqa
+                log(f"{tag} error {type(e).__name__}: {e}")
+    finally:
+        os._exit(0)
+
+
+class Actor:
+    def __init__(self, ws, table):
+        l_r, l_w = os.pipe()
+        c_r, c_w = os.pipe()
+        self.pid = os.fork()
+        if self.pid == 0:
+            os.close(l_r)
+            os.close(c_w)
+            child_actor(ws, table, l_w, c_r)
+            os._exit(0)
+        os.close(l_w)
+        os.close(c_r)
+        self.fd, self.cmd = l_r, c_w
+        self.buf = dict(data=b"", lines=[])
+
+    def send(self, **kw):
+        try:
+            os.write(self.cmd, (json.dumps(kw) + "\n").encode())
+        except OSError:
+            pass
+
+    def wait(self, line, timeout):
+        return wait_line(self.fd, self.buf, line, timeout)
+
+    def finish(self):
+        self.send(op="quit")
+        try:
+            os.close(self.cmd)
+        except OSError:
+            pass
+        t0 = time.time()
+        timed_out = True
+        while time.time() - t0 < 15:
+            p, st = os.waitpid(self.pid, os.WNOHANG)
+            if p:
+                timed_out = False
+                break
+            time.sleep(0.005)
+        if timed_out:
+            os.kill(self.pid, signal.SIGKILL)
+            os.waitpid(self.pid, 0)
+        log = (self.buf["data"] + read_rest(self.fd)).decode().split("\n")[:-1]
+        return log, timed_out
+
+
+def do_excl3(ws, table, rel2x, case):
+    """A inside, B waiting, A leaves through __exit__, B inside, a third contender (a new process C or
+    A's process again) tries to get in while B is inside."""
+    out = dict(pre=[do_run(ws, table, rel2x, run) for run in case.get("pre", [])])
+    for x in case.get("mk", []):
+        mk_jobdir(ws, table, x)
+    win = case.get("wait", 0.4)
+    t0 = time.time()
+    a = Actor(ws, table)
+    a.send(op="run", tag="A", jobs=case["a"])
+    a.wait("A entered", 30)
+    t_enter = time.time() - t0
+    out["a_in"] = a.wait("A holding", 30)
+    out["s_a"] = snapshot(ws, rel2x)
+    b = Actor(ws, table)
+    b.send(op="run", tag="B", jobs=case["b"])
+    out["b_trying"] = b.wait("B try", 10)
+    out["b_early"] = b.wait("B entered", max(win, 3 * t_enter))
+    out["s_bwait"] = snapshot(ws, rel2x)
+    a.send(how=case["leave"])
+    out["a_left"] = a.wait("A exited" if case["leave"] == "ok" else "A exc-out", 30)
+    out["b_after"] = b.wait("B entered", 30)
+    out["b_holding"] = b.wait("B holding", 30)
+    out["s_b"] = snapshot(ws, rel2x)
+    if case["third"] == "new":
+        c = Actor(ws, table)
+    else:
+        c = a
+    c.send(op="run", tag="C", jobs=case["c"])
+    out["c_trying"] = c.wait("C try", 10)
+    out["c_early"] = c.wait("C entered", max(win, 3 * t_enter))
+    out["s_cwait"] = snapshot(ws, rel2x)
+    b.send(how="ok")
+    out["b_left"] = b.wait("B exited", 30)
+    out["c_after"] = c.wait("C entered", 30)
+    out["c_holding"] = c.wait("C holding", 30)
+    out["s_c"] = snapshot(ws, rel2x)
+    c.send(how="ok")
+    out["c_left"] = c.wait("C exited", 30)
+    out["s_end"] = snapshot(ws, rel2x)
+    logs, tos = {}, []
+    for name, act in (("a", a), ("b", b)) + ((("c", c),) if c is not a else ()):
+        logs[name], to = act.finish()
+        tos.append(to)
+    out["logs"] = logs
+    out["timeouts"] = any(tos)
+    return out
+
+
 def main():
     payload = json.load(sys.stdin)
     scratch = Path(payload["scratch"])
@@ -423,6 +564,8 @@ def main():
         ws.mkdir(parents=True)
         if case["kind"] == "hist":
             res = dict(runs=[do_run(ws, table, rel2x, run) for run in case["runs"]])
+        elif case["kind"] == "excl3":
+            res = do_excl3(ws, table, rel2x, case)
         else:
             res = do_excl(ws, table, rel2x, case)
         results.append(res)
